@@ -82,7 +82,7 @@ where
             }
             StreamElement::Watermark(ts) => {
                 self.last_watermark = Some(ts);
-                let split = self.ws.partition_point(|w| w.end < ts);
+                let split = self.ws.partition_point(|w| w.end <= ts);
                 self.ws
                     .drain(..split)
                     .filter(|w| w.active)
